@@ -120,6 +120,25 @@ func genC06(g *G) {
 			}
 		}
 	}
+	// two byte positions at once, with values whose sums carry (arithmetic over wider words wraps there)
+	for _, p := range sourcePrefixes() {
+		base := p.Addr().AsSlice()
+		if len(base) != 16 {
+			continue
+		}
+		for i := 0; i < 16; i++ {
+			for j := i + 1; j < 16; j++ {
+				for _, v := range [][2]byte{{0x80, 0x80}, {0xff, 0x01}, {0x12, 0xee}, {0x01, 0x01}} {
+					if g.Quick() && g.Rnd.IntN(4) != 0 {
+						continue
+					}
+					f := append([]byte{}, base...)
+					f[i], f[j] = v[0], v[1]
+					emit(f, "")
+				}
+			}
+		}
+	}
 	// all values of the first two bytes with a few tails
 	stride := g.N(5, 1)
 	off := g.Rnd.IntN(stride)
